@@ -342,7 +342,8 @@ def gen_params(rng, ctx_thorough, big=False):
                 scale=rng.choice([0.25, 0.5, 0.8, 2.0, 3.0]),
                 kkind=('chain' if rng.random() < 0.2 else 'random'),
                 # a reference load many orders of magnitude below critical (unit load on a stiff structure), dense path
-                xscale=(rng.choice([1e-9, 1e-10, 3e-11, 1e-7]) if (rng.random() < 0.3 and not big) else None))
+                xscale=(rng.choice([1e-9, 1e-10, 3e-11, 1e-7]) if (rng.random() < 0.3 and not big) else None),
+                units=(rng.choice([1e-12, 1e-15, 1e-10, 1e9]) if (rng.random() < 0.3 and not big) else None))
 
 
 def build_random(p):
@@ -630,6 +631,12 @@ def runs_of(p, tracer=None):
         oc, calls = run_lb(K, KG * xs, num, False, tracer)
         out.append(dict(tag='scaled', n=n, num=num, kmin=True, sparse=False, K=K, KG=KG * xs, act=act, outcome=oc, calls=calls,
                         factor=xs))
+    if p.get('units'):
+        # the same pencil in another unit system (GN and m, or micro-scale structures): both matrices scaled by one factor, multipliers unchanged
+        u = p['units']
+        for sparse in (True, False):
+            oc, calls = run_lb(K * u, KG * u, num, sparse, tracer)
+            out.append(dict(tag='units x%g' % u, n=n, num=num, kmin=True, sparse=sparse, K=K * u, KG=KG * u, act=act, outcome=oc, calls=calls))
     if p['kind'] == 'panel':
         for sparse in (True, False):
             oc, calls, K2, KG2 = run_panel_lb(p, num, sparse)
